@@ -462,6 +462,64 @@ func runC11(c *Ctx) {
 			c.Check(fmt.Sprintf("%s#%s-failure-rejects", fname(vall), calleeName(ci)), ci.Pos(), ok, ifelse(ok, "a failure of "+calleeName(ci)+" cannot end in a nil return", why))
 		}
 	}
+	// ------------------------------------------------------------ H6
+	c.Rule("C11.H6", "GATE", "a block is skipped as already known only if it is the canonical block of its height and its state is available: every return of ErrKnownBlock in ValidateBody is dominated by HasBlockAndState(hash, number) == true and by the equality of the canonical header's hash at that number with the block's hash — a block whose body and (partly flushed) state survived a crash but which never became canonical is executed again instead of being skipped, otherwise every child fails on the missing trie and the node is wedged")
+	c.Min(1)
+	{
+		vb := w.Fn("core", "BlockValidator", "ValidateBody")
+		c.sawFunc(fname(vb))
+		n := 0
+		for _, rp := range returnPaths(vb, 0) {
+			u, ok := stripConv(rp.Val).(*ssa.UnOp)
+			if !ok || u.Op != token.MUL {
+				continue
+			}
+			g, ok := u.X.(*ssa.Global)
+			if !ok || g.Name() != "ErrKnownBlock" {
+				continue
+			}
+			n++
+			c.sites++
+			hasState, canonical := false, false
+			for _, a := range rp.Atoms() {
+				if a.Kind == "true" && a.Truth {
+					if cc, isCall := stripConv(a.X).(*ssa.Call); isCall && calleeObj(cc) != nil && calleeObj(cc).Name() == "HasBlockAndState" {
+						hasState = true
+					}
+				}
+				if a.Kind == "eq" && a.Truth && a.Y != nil {
+					cx, okx := stripConv(a.X).(*ssa.Call)
+					cy, oky := stripConv(a.Y).(*ssa.Call)
+					if !okx || !oky || calleeObj(cx) == nil || calleeObj(cy) == nil || calleeObj(cx).Name() != "Hash" || calleeObj(cy).Name() != "Hash" {
+						continue
+					}
+					fromCanon := func(cc *ssa.Call) bool {
+						r := callRecv(cc)
+						return r != nil && derivesFrom(r, func(v ssa.Value) bool {
+							k, isCall := v.(*ssa.Call)
+							if !isCall || calleeObj(k) == nil {
+								return false
+							}
+							nm := calleeObj(k).Name()
+							return nm == "GetHeaderByNumber" || nm == "GetBlockByNumber" || nm == "ReadCanonicalHash" || nm == "GetCanonicalHash"
+						})
+					}
+					fromBlock := func(cc *ssa.Call) bool {
+						r := callRecv(cc)
+						return r != nil && len(vb.Params) > 1 && derivesFrom(r, func(v ssa.Value) bool { return v == ssa.Value(vb.Params[1]) })
+					}
+					if (fromCanon(cx) && fromBlock(cy)) || (fromCanon(cy) && fromBlock(cx)) {
+						canonical = true
+					}
+				}
+			}
+			ok2 := hasState && canonical
+			c.Check(fmt.Sprintf("%s#known-only-if-canonical-with-state-%d", fname(vb), n), rp.Ret.Pos(), ok2, ifelse(ok2, "ErrKnownBlock under HasBlockAndState and canonical-hash equality", fmt.Sprintf("ErrKnownBlock is answered without (state available=%v, canonical at its height=%v): a stored but never-canonical block — e.g. one whose import was interrupted between the trie flushes — is skipped instead of re-executed, and its children fail on the missing trie nodes for good", hasState, canonical)))
+		}
+		if n == 0 {
+			c.Undecided(fname(vb)+"#known-only-if-canonical-with-state", vb.Pos(), "no return of ErrKnownBlock found in ValidateBody")
+		}
+	}
 }
 
 func collectExtracts(v ssa.Value, call ssa.CallInstruction, got map[int]bool) {
